@@ -24,6 +24,15 @@ decidable classes, which are genuine defects of the code (known findings, refuta
 * `fuzzyClass` — class **FuzzyOverTombstoneOrPending** (F36): prefix lookups only scan persisted
   leaves, add the pending entries of exactly the query and filter tombstones keyed by the query.
 
+Both classes are *transient* and *exactly characterised*: `entries()` is a correct enumeration iff no
+key is shadowed (`entries_exact_iff`), inside the class the lookup reports the larger of the persisted
+and the pending frequency (`shadowed_lookup_reports_larger`), and after **any** history
+`reopen; flush; reopen` (writer drained, snapshot taken and adopted) or close-and-open leaves nothing
+pending, so that every answer — exact, prefix, enumeration — is the map's (`adoption_answers`,
+`close_open_answers`, §6a).  `Layered` is treated for arbitrary system layers and a user layer under any
+history applied through `Layered` itself (`layered_history`, `layered_history_file`).  The provided
+trait methods `lookup_first_phrase` / `lookup_all_phrases` are the head / the whole of the full result.
+
 Precondition on operations (`OpOk`): a phrase text does not begin with U+10FFFF — `entries_iter_for`
 scans the pending tree up to the *exclusive* bound `MAX_PHRASE = "\u{10FFFF}"`
 (`max_code_point_phrase_refuted`, class **MaxCodePointPhrase**).
